@@ -84,3 +84,112 @@ func (fi *FnInfo) asMapOver(p *Prog, v ssa.Value) *MapOver {
 	// early exits (return/break) leave the loop and are the caller's concern.
 	return mo
 }
+
+// MapView is an in-order map over a collection, expressed in the terms of the function that asked:
+// element i of the result is Elem (with Idx standing for i) for i in [0, len(Coll)).
+type MapView struct {
+	Bound *Term // len(collection)
+	Elem  *Term
+	Idx   *Term
+}
+
+// mapViewOf recognises t as an in-order map: a loop accumulator of fi's function, a make+indexed
+// store loop, or the result of a module function all of whose successful returns are such a map
+// (translated through the parameter substitution).
+func (fi *FnInfo) mapViewOf(p *Prog, t *Term, depth int) *MapView {
+	if t == nil {
+		return nil
+	}
+	if t.Val != nil && t.Val.Parent() == fi.Fn {
+		if mo := fi.asMapOver(p, t.Val); mo != nil && len(mo.Elems) == 1 && mo.Loop.Lo == 0 {
+			return &MapView{Bound: mo.Loop.Bound, Elem: mo.Elems[0], Idx: mo.Loop.Idx}
+		}
+		if mv := fi.makeFillView(p, t.Val); mv != nil {
+			return mv
+		}
+	}
+	if depth >= 2 {
+		return nil
+	}
+	ct := t
+	idx := 0
+	if ct.K == TRes {
+		idx = ct.Idx
+		ct = ct.Sub[0]
+	}
+	if ct.K != TCall || ct.Callee == nil || !inModule(ct.Callee) || ct.Callee.Blocks == nil {
+		return nil
+	}
+	g := ct.Callee
+	gfi := p.Info(g)
+	m := map[string]*Term{}
+	for i, prm := range g.Params {
+		if i < len(ct.Sub) {
+			m[prm.Name()] = ct.Sub[i]
+		}
+	}
+	var view *MapView
+	for _, r := range returnsOf(g) {
+		if idx >= len(r.Results) {
+			return nil
+		}
+		// failing returns (definitely non-nil error) do not count
+		if n := len(r.Results); n > 1 && isErrorType(r.Results[n-1].Type()) && gfi.errIsNil(r.Results[n-1], r, 0) == no {
+			continue
+		}
+		rt := gfi.T(r.Results[idx])
+		mv := gfi.mapViewOf(p, rt, depth+1)
+		if mv == nil {
+			return nil
+		}
+		v := &MapView{Bound: mv.Bound.subst(m), Elem: mv.Elem.subst(m), Idx: mv.Idx}
+		if view != nil && (view.Bound.s != v.Bound.s) {
+			return nil
+		}
+		view = v
+	}
+	return view
+}
+
+// makeFillView: out := make([]T, len(coll)); for i := range coll { out[i] = f(coll[i]) }
+func (fi *FnInfo) makeFillView(p *Prog, v ssa.Value) *MapView {
+	ms, ok := v.(*ssa.MakeSlice)
+	if !ok {
+		return nil
+	}
+	n := fi.T(ms.Len)
+	var view *MapView
+	stores := 0
+	for _, r := range *ms.Referrers() {
+		ia, ok := r.(*ssa.IndexAddr)
+		if !ok {
+			continue
+		}
+		for _, r2 := range *ia.Referrers() {
+			st, ok := r2.(*ssa.Store)
+			if !ok || st.Addr != ssa.Value(ia) {
+				continue
+			}
+			stores++
+			for _, l := range loopsOf(p, fi.Fn) {
+				if l.Idx == nil || l.Lo != 0 || !l.Blocks[st.Block()] || fi.T(ia.Index).s != l.Idx.s || l.Bound.s != n.s {
+					continue
+				}
+				// executed on every iteration
+				every := true
+				for _, pred := range l.Header.Preds {
+					if l.Blocks[pred] && !st.Block().Dominates(pred) {
+						every = false
+					}
+				}
+				if every {
+					view = &MapView{Bound: l.Bound, Elem: fi.T(st.Val), Idx: l.Idx}
+				}
+			}
+		}
+	}
+	if stores != 1 {
+		return nil
+	}
+	return view
+}
